@@ -2,7 +2,12 @@
  * C20 — threads, at-exit callbacks, managed join under VSX (DESIGN §5 C20).
  */
 #include <stddef.h>
-#include "vsx.h"
+#ifdef VSX_FREE
+#    define GALLOC_PASSTHROUGH 1
+#    include "vsx_free.h"
+#else
+#    include "vsx.h"
+#endif
 #include "galloc.h"
 #include <aws/common/thread.h>
 #include <aws/common/private/thread_shared.h>
